@@ -7,10 +7,20 @@ import (
 	"bufio"
 	"fmt"
 	"io"
+	"os"
 	"os/exec"
+	"sync/atomic"
 	"strings"
 	"time"
 )
+
+// debugging aid: SYMGO_DUMPSLOW=<ms> writes the script of slow queries to /tmp/slowq-<n>.smt2
+var dumpSlowMs = func() int {
+	n := 0
+	fmt.Sscanf(os.Getenv("SYMGO_DUMPSLOW"), "%d", &n)
+	return n
+}()
+var dumpSlowN int32
 
 type solver struct {
 	timeoutMs int
@@ -150,6 +160,12 @@ func (s *solver) checkSat(assumption string) string {
 	}
 	s.queries++
 	s.dur += time.Since(t0)
+	if dumpSlowMs > 0 && time.Since(t0) > time.Duration(dumpSlowMs)*time.Millisecond && s.script != nil {
+		n := atomic.AddInt32(&dumpSlowN, 1)
+		if n <= 20 {
+			os.WriteFile(fmt.Sprintf("/tmp/slowq-%d.smt2", n), []byte(s.script()+"\n; "+res+" after "+time.Since(t0).String()+"\n(check-sat-assuming ("+assumption+"))\n"), 0o644)
+		}
+	}
 	if sawErr {
 		return "error"
 	}
